@@ -801,6 +801,62 @@ def legacy_rules(rep, model):
 # ---------------------------------------------------------------------------
 # wrapping / round trip
 # ---------------------------------------------------------------------------
+def pspace_protocol(rep, model):
+    """R6: power-space elements take part in NumPy ufuncs through the legacy
+    protocol `x.__array_wrap__(ufunc(x.__array__()))`.  The result array of a
+    ufunc has the ufunc's dtype (float for sqrt / true_divide of integers,
+    bool for comparisons): the element returned by `__array_wrap__` must lie
+    in a space of that dtype - wrapping it in the element's own space casts
+    the numbers back."""
+    PSP = 'odl/space/pspace.py'
+    ci = model.get('ProductSpaceElement')
+    if ci is None or '__array_wrap__' not in ci.methods:
+        raise AnalysisError('anchor vanished: ProductSpaceElement.'
+                            '__array_wrap__')
+    fn = ci.methods['__array_wrap__']
+
+    def mkspace(dt):
+        sp = Rec('pspace', dtype=DT(dt), is_power_space=True, shape=(2, 3))
+        sp.attrs['element'] = Builtin('element', lambda arr=None, **k: Rec(
+            'pselem', space=sp, data=arr, cast=(
+                isinstance(arr, NA) and arr.dt != DT(dt))))
+        sp.attrs['astype'] = Builtin('astype', lambda d: sp if as_dt(
+            d) == DT(dt) else mkspace(as_dt(d).d))
+        return sp
+    n = 0
+    for sdt, rdt, what in (('int64', 'float64', 'np.sqrt / np.true_divide of '
+                            'an integer element'),
+                           ('int64', 'bool', 'a comparison'),
+                           ('float64', 'bool', 'np.isfinite'),
+                           ('float32', 'float64', 'a result promoted by a '
+                            'double-precision operand'),
+                           ('float64', 'float64', 'a result of the '
+                            'element\'s own dtype')):
+        n += 1
+        cons = 'ProductSpaceElement.__array_wrap__[%s element, %s result]' \
+            % (sdt, rdt)
+
+        def f(sdt=sdt, rdt=rdt, what=what):
+            H = UH(model) if False else None
+            I, H = setup(model)
+            sp = mkspace(sdt)
+            x = Inst(ci)
+            x.attrs['_LinearSpaceElement__space'] = sp
+            arr = symbols('r', (2, 3), rdt)
+            r = I.call_func(Func(fn, I.env_of(PSP), ci), [arr], {}, x)
+            if not (isinstance(r, Rec) and r.kind == 'pselem'):
+                return 'returns %r' % (r,)
+            got = r.attrs['space'].attrs['dtype']
+            if got != DT(rdt):
+                return ('the result array of %s has dtype %s but is wrapped '
+                        'in a space of dtype %s: the numbers are cast back'
+                        % (what, rdt, got.d))
+            if r.attrs['data'] is not arr:
+                return 'another array is wrapped'
+        guarded(rep, 'R6', cons, f, PSP)
+    rep.floor('R6', 'legacy-protocol wrappings', n, 5)
+
+
 def wrapping_rules(rep, model):
     ci = model.get('NumpyTensorSpace')
     if ci is None or 'element' not in ci.methods:
